@@ -79,7 +79,7 @@ LEMMAS = [
     (r"<&\[u8\] as p::bytes::r#async::AsyncRead>::poll_read$", r"^call:(index_mut|split_at)$", r"min\(", "amt = min(self.len(), buf.len())", None),
     (r"<&\[u8\] as p::bytes::r#async::AsyncRead>::poll_read$", r"^call:copy_from_slice$", r"", "both sides have length amt", None),
     # --- capsule
-    (r"CloseWebTransportSession::with_capsule$", r"^call:expect$", r"^<T as TryInto<U>>::try_into\(<impl Index<I> for \[T\]>::index\([^()]*(\([^()]*\))*[^()]*,RangeTo\(4\)\)\),",
+    (r"CloseWebTransportSession::with_capsule$", r"^call:expect$", r"^<T as TryInto<U>>::try_into\([^\[\]]*\[\.\.4\]\),",
      "the operand is `payload[..4]`: a slice produced by indexing with the constant range ..4 has length exactly 4 (the indexing itself is a separate obligation, discharged by the length guard)", None),
     # --- qpack
     (r"Decoder::decode$", r"^BoundsCheck$", r"buffer_remaining.*,0$", "loop guard capacity() > 0 and capacity == len(buffer_remaining())", None),
@@ -276,7 +276,7 @@ class Support:
     def s_get_bytes_exact(self, sid):
         f = self.A.fn("<&[u8] as wtransport_proto::bytes::BytesReader>::get_bytes")
         ls = sorted(path_sig(p)[1] for p in nonpanic(walk(f)))
-        ok1 = "return Option::Some(ok(<impl [T]>::get(self,RangeTo(len))))" in ls
+        ok1 = "return Option::Some(self[..len])" in ls   # normal form of `self.get(..len)?`, `&self[..len]` after a length guard, `split_at(len).0`
         return ok1, "<&[u8]>::get_bytes(len) returns self.get(..len): exactly len bytes (octets::get_bytes(len) likewise by contract)"
 
     def s_const_generic_N(self, sid):
@@ -385,8 +385,22 @@ def sweep(ctx, rid, A, clo, sup, only=None):
     """discharge every obligation of the functions in `clo` (optionally restricted to the def paths in `only`)"""
     n_ob = n_gen = n_lem = 0
     used = set()
+    import pathwalk
+    voc = pathwalk.vocab()
+    direct = set()
+    for p2, f2 in clo.items():
+        if f2.body:
+            for bb in f2.body["blocks"]:
+                t = bb["t"]
+                if t["k"] == "call":
+                    direct.add(t["f"].get("resolved") or t["f"].get("path"))
     for path, fn in sorted(clo.items()):
         if "::tests::" in path or fn.body is None or (only is not None and path not in only):
+            continue
+        if voc and path not in voc and not fn.is_coroutine and path in direct and "{closure#" not in path:
+            # a helper that is not part of the reference vocabulary is inlined into its callers by the walker: its obligations are
+            # collected (and keyed) there, with the callers' guards in scope
+            ctx.count("helpers_analysed_through_their_callers")
             continue
         obs = obligations.collect(fn)
         for o in obs:
